@@ -232,7 +232,7 @@ pub fn run_tree_with(mk: fn(&mut Xot) -> HVocab, t: &GTree, start_path: &[usize]
     ));
     element_stats(sub, &hv, sink);
     // everything that reads the Xot happens before `html5()` borrows it mutably
-    let results: Vec<(Res, Res, String)> = {
+    let results: Vec<(Res, Res, String, bool)> = {
         let h = xot.html5();
         params
             .iter()
@@ -240,12 +240,19 @@ pub fn run_tree_with(mk: fn(&mut Xot) -> HVocab, t: &GTree, start_path: &[usize]
                 let s = res_of(guarded(|| h.serialize_string(to_params(&hv, p), start)));
                 let mut buf = Vec::new();
                 let w = res_of(guarded(|| h.serialize_write(to_params(&hv, p), start, &mut buf).map(|_| String::new())));
-                (s, w, String::from_utf8_lossy(&buf).to_string())
+                // a sink that takes a few bytes per write() call must receive the same bytes
+                let mut cw = crate::common::ChunkWriter::new(1 + buf.len() % 3);
+                let w2 = res_of(guarded(|| h.serialize_write(to_params(&hv, p), start, &mut cw).map(|_| String::new())));
+                let short_ok = !(matches!(w, Res::Ok(_)) && matches!(w2, Res::Ok(_))) || cw.data == buf;
+                (s, w, String::from_utf8_lossy(&buf).to_string(), short_ok)
             })
             .collect()
     };
     let tree_wire = format!("{} {}", path_str(start_path), t.wire());
-    for (p, (s, w, written)) in params.iter().zip(results.iter()) {
+    for (p, (s, w, written, short_ok)) in params.iter().zip(results.iter()) {
+        if !*short_ok {
+            fail(sink, &Finding { signature: "C19:write-loses-bytes-on-short-writing-sink".to_string(), what: "serialize_write into a sink that accepts a few bytes per call delivers other bytes than into a Vec".to_string() }, t, start_path, p, s);
+        }
         let show = |r: &Res, ok: &dyn Fn(&String) -> String| match r {
             Res::Ok(v) => ok(v),
             Res::Err(e, _) => e.clone(),
